@@ -45,7 +45,7 @@ explore_prop!(
     "C15",
     Which { c15: true, c16: false, c17: false },
     TREE_PLANNERS,
-    "explicit-state exploration of the real planner: per (kind, planner, world over the alphabet, goal bias in {0,1}, RRT* radius in {0.5,1.5,3} x step) every sample sequence of length <= 4 (quick) / 6 (thorough) over a 6-7 state alphabet (start, duplicate / -q of the start, goal target, collinear points, seam and antipodal angles, quaternions at dot 0 and just above the 0.9995 switch), one iteration per solve call (budget 1, scripted sampler), breadth first, de-duplicated by tree snapshot. After every iteration the whole tree is checked (indices, single root, acyclic, root = start / sampled goal, every node valid) and the edges created or changed by that iteration are checked against oracle A (validity-query log), oracle B (dense re-check) and the extension limit. One 'case' = one root configuration; counters give sequences / distinct snapshots. Non-trivial = a root whose exploration reached >= 4 distinct snapshots.",
+    "explicit-state exploration of the real planner: per (kind, planner, world over the alphabet, goal bias in {0,1}, RRT* radius in {0.5,1,1.5,3} x step) every sample sequence of length <= 4 (quick) / 6 (thorough) over a 6-7 state alphabet (start, duplicate / -q of the start, goal target, collinear points, seam and antipodal angles, quaternions at dot 0 and just above the 0.9995 switch), one iteration per solve call (budget 1, scripted sampler), breadth first, de-duplicated by tree snapshot. After every iteration the whole tree is checked (indices, single root, acyclic, root = start / sampled goal, every node valid) and the edges created or changed by that iteration are checked against oracle A (validity-query log), oracle B (dense re-check) and the extension limit. One 'case' = one root configuration; counters give sequences / distinct snapshots. Non-trivial = a root whose exploration reached >= 4 distinct snapshots.",
     true
 );
 explore_prop!(
@@ -61,7 +61,7 @@ explore_prop!(
     "C17",
     Which { c15: false, c16: false, c17: true },
     [PlannerTag::RRTStar],
-    "same exploration restricted to RRT* with radius in {0.5,1.5,3} x step, alphabets with duplicates (zero-length edges, equal costs), free and obstructed worlds: per iteration (a) cost(new) = cost(parent) + edge bit-exactly, (b) no candidate (neighbour within the radius or the nearest node) offers a lower cost unless a motion query on that segment was rejected, (c) every neighbour that becomes strictly cheaper through the new node without a rejected query is re-parented with the exact cost, all other nodes bit-identical, (d) recorded costs never increase. Non-trivial = root with >= 4 distinct snapshots.",
+    "same exploration restricted to RRT* with radius in {0.5,1,1.5,3} x step, alphabets with duplicates (zero-length edges, equal costs), free and obstructed worlds: per iteration (a) cost(new) = cost(parent) + edge bit-exactly, (b) no candidate (neighbour within the radius or the nearest node) offers a lower cost unless a motion query on that segment was rejected, (c) every neighbour that becomes strictly cheaper through the new node without a rejected query is re-parented with the exact cost, all other nodes bit-identical, (d) recorded costs never increase. Non-trivial = root with >= 4 distinct snapshots.",
     false
 );
 
@@ -73,6 +73,9 @@ fn gen_stepwise(ch: &mut Ch, planners: &[PlannerTag], tier: Tier, big_radius: bo
         rng_goal: 0.3,
         big_radius,
         p_nonconvex: 0.25,
+        // goal regions whose first target is covered by an obstacle: RRT-Connect has to re-draw
+        // its goal root in the first solve call
+        p_goal_blocked: 0.15,
         ..Default::default()
     };
     let mut c = gen_plan_case(ch, &prof);
